@@ -35,6 +35,7 @@ def key_sets(klepto):
         'str': ['k1', 'k2', 'k3', 'k4'],
         'alias-int-str': [1, '1', 'k3', 2],           # str(1) == str('1')
         'alias-dash': ['a-b', 'a_b', 'k3', 'ab'],      # '-' -> '_' in directory names
+        'dash': ['a-b', '2024-01-31', 'x_y', '-'],     # dashes and underscores WITHOUT an aliasing partner
         'tuple': [(1, 2), (1, '2'), ('a',), 'a'],
         'int': [1, 2, 3, 10],
         # longer than a file name may be (NAME_MAX = 255), equal in their first 280 characters
@@ -52,13 +53,13 @@ def key_sets(klepto):
 def keysets_for(backend):
     base = backend.split('+')[0]
     if base in ('file-json', 'dir-json'):
-        return ['str', 'alias-dash', 'keymap-hash', 'keymap-str', 'long']   # JSON object keys are strings
+        return ['str', 'alias-dash', 'dash', 'keymap-hash', 'keymap-str', 'long']   # JSON object keys are strings
     if base == 'dir-py':
         # the import-based reader needs K_<key> to be a module name: identifier-like strings only
         return ['str', 'alias-dash', 'keymap-hash']
     if base.startswith('sql'):
-        return ['str', 'alias-int-str', 'alias-dash', 'int', 'keymap-pickle', 'keymap-hash', 'keymap-str', 'long']
-    return ['str', 'alias-int-str', 'alias-dash', 'tuple', 'int', 'keymap-pickle', 'keymap-hash', 'keymap-str', 'keymap-raw', 'long']
+        return ['str', 'alias-int-str', 'alias-dash', 'dash', 'int', 'keymap-pickle', 'keymap-hash', 'keymap-str', 'long']
+    return ['str', 'alias-int-str', 'alias-dash', 'dash', 'tuple', 'int', 'keymap-pickle', 'keymap-hash', 'keymap-str', 'keymap-raw', 'long']
 
 
 # ---------------------------------------------------------------------------------------------
@@ -347,6 +348,8 @@ class Recorder(object):
                     h.update({K(e['k']): V(e['v']), K(e['k2']): V(e['v2'])})
                 elif op == 'updatekw':
                     h.update({}, **{K(e['k']): V(e['v']), K(e['k2']): V(e['v2'])})
+                elif op == 'updatebad':
+                    h.update({K(e['k']): V(e['v']), K(e['k2']): V(BAD)})
                 elif op == 'clear':
                     h.clear()
                 elif op == 'copy':
